@@ -201,7 +201,7 @@ Definition ov_repaired : ovariant :=
   {| ov_fmt_checked := true; ov_bbattr_guarded := true; ov_onechar_in_heap := false; ov_ep_layered := true; ov_ep_empty_reported := false |}.
 Definition ov_before : ovariant :=
   {| ov_fmt_checked := false; ov_bbattr_guarded := false; ov_onechar_in_heap := true; ov_ep_layered := false; ov_ep_empty_reported := false |}.
-Definition v_repaired : variant := {| v_lookup_panics := false; v_inprog_unguarded := false |}.
+Definition v_repaired : variant := {| v_lookup_panics := false; v_inprog_unguarded := false; v_nil_panics := false |}.
 
 (* a `blackboxes` attribute of any shape is read without a panic *)
 Theorem guarded_transform_total : forall l, transform_bbs true l <> OPanic.
